@@ -22,7 +22,7 @@ package urltree
 //@ ghost func stepTo(n *Node[int], p urlPart, m *Node[int]) bool = (litStep(n, p) && m == n.ConstantChildren[p.Value]) || (parStep(n, p) && m == n.ParametricChild.Child)
 
 //@ func lookupNode
-//@   prop C13
+//@   prop C13, C03
 //@   instantiate T=int
 //@   ghostlocal path gmap[int]*Node[int]
 //@   ghostlocal wj int
